@@ -166,19 +166,54 @@ pub fn mark_unreach() {
 
 /// Obligations are accumulated and asserted once, after the END marker: a Kani `assert!` is
 /// `assert; assume`, which would make "harness end reachable" mean "all obligations satisfiable".
+///
+/// Two accumulators: VH_OK holds the obligations as stated for the symbolic interpretation (exact
+/// equalities); VH_OK_TOL holds the same obligations with the property's floating-point tolerance. The
+/// driver decides with the first and, when that is sat, asks for a model of the second so that the
+/// counterexample is one that also fails natively (a violation larger than the tolerance).
 #[cfg(kani)]
 static mut VH_OK: bool = true;
+#[cfg(kani)]
+static mut VH_OK_TOL: bool = true;
 #[cfg(kani)]
 pub fn record(c: bool) {
     unsafe {
         VH_OK = VH_OK & c;
+        VH_OK_TOL = VH_OK_TOL & c;
+    }
+}
+#[cfg(kani)]
+pub fn record2(exact: bool, within_tol: bool) {
+    unsafe {
+        VH_OK = VH_OK & exact;
+        VH_OK_TOL = VH_OK_TOL & within_tol;
+    }
+}
+#[cfg(kani)]
+#[inline(never)]
+fn fin_exact() {
+    unsafe {
+        let ok_exact = VH_OK;
+        assert!(ok_exact);
+    }
+}
+#[cfg(kani)]
+#[inline(never)]
+fn fin_tol() {
+    unsafe {
+        let ok_tol = VH_OK_TOL;
+        assert!(ok_tol);
     }
 }
 pub fn finish() {
     mark_end();
     #[cfg(kani)]
-    unsafe {
-        assert!(VH_OK);
+    {
+        // exact first: its VC covers every violation. fin_tol's own VC is never used as such (it is guarded
+        // by the assumed exact obligations); the driver combines fin_exact's path condition with fin_tol's
+        // conclusion to ask for a violation that exceeds the tolerance.
+        fin_exact();
+        fin_tol();
     }
 }
 
@@ -214,7 +249,11 @@ macro_rules! vclose {
         let a__: f64 = $a;
         let b__: f64 = $b;
         #[cfg(kani)]
-        { $crate::rt::record(a__ == b__); }
+        {
+            let t__: f64 = $tol;
+            let d__ = a__ - b__;
+            $crate::rt::record2(a__ == b__, d__ <= t__ && -d__ <= t__);
+        }
         #[cfg(not(kani))]
         {
             let t__: f64 = $tol;
@@ -234,7 +273,10 @@ macro_rules! vle {
         let a__: f64 = $a;
         let b__: f64 = $b;
         #[cfg(kani)]
-        { $crate::rt::record(a__ <= b__); }
+        {
+            let t__: f64 = $slack;
+            $crate::rt::record2(a__ <= b__, a__ <= b__ + t__);
+        }
         #[cfg(not(kani))]
         {
             let t__: f64 = $slack;
